@@ -410,4 +410,12 @@ def main():
 
 
 if __name__ == "__main__":
-    main()
+    try:
+        main()
+    except SystemExit:
+        raise
+    except BaseException as e:  # never let a harness failure look like a verdict
+        import traceback
+        traceback.print_exc()
+        print("MACHINERY-ERROR: %s: %r" % (os.path.basename(__file__), e))
+        sys.exit(2)
